@@ -99,11 +99,13 @@ def run(ctx, which):
                       cfg_consts={'MaxSegs': ctx.pick('3', '4')},
                       invariants=['SliceRefines', 'PrefixRefines', 'NeverOverRead'], need_actions=['Step'], timeout=900)
     cases = export_layouts(ctx)
-    if ctx.quick and len(cases) > 6000:
+    ctx.notes['layouts_exported_by_tlc'] = len(cases)
+    cap = ctx.pick(6000, 35000 if which == 'C01' else 14000)      # C02 histories cost several times a C01 read in TLC
+    if len(cases) > cap:
         rng = ctx.subrng('sample-exports')
-        cases = rng.sample(cases, 6000)
-    cases += random_cases(ctx, ctx.pick(120, 700), 0)
-    cases += random_cases(ctx, ctx.pick(12, 80), 40000)
+        cases = rng.sample(cases, cap)
+    cases += random_cases(ctx, ctx.pick(120, 700 if which == 'C01' else 400), 0)
+    cases += random_cases(ctx, ctx.pick(12, 80 if which == 'C01' else 30), 40000)
     rng = ctx.subrng('drive')
     sul_rng = ctx.subrng('sul')
     traces, recs_l, vm_l, sul_l, meta = [], [], [], [], []
@@ -196,7 +198,7 @@ def run(ctx, which):
     for i in (0, len(cases) // 2, len(cases) - 1):
         ctx.sample(dict(meta=meta[i], events=[e for e in traces[i] if e['op'] != 'seg'][:6]))
     rej = ctx.validate_traces('DlisPhysTrace', 'DlisPhysTrace', traces,
-                              payload_extra=dict(recs=recs_l, vm=vm_l, sul=sul_l), workers=16, timeout=3000)
+                              payload_extra=dict(recs=recs_l, vm=vm_l, sul=sul_l), workers=16, timeout=6000)
     for t, l, st in rej:
         if st.get('phase') == 'write':
             raise Machinery('generator produced a layout the writer specification rejects: case %d event %s %s' % (
